@@ -352,6 +352,7 @@ type c15Obs struct {
 	Err   string
 	FmtCheck string // "" = every formatter wrote the whole result and reported writer errors; else what was wrong
 	Reuse string // modes "r" / "f": "same", or how the reused engine / formatter differed from a fresh one
+	Hist  string // mode "r": outcome classes of the evaluations of the one engine, in order
 	Ast   string // mode "d" only: the syntax tree dump (parsed in the child: a parser that hangs must not hang the harness)
 }
 
@@ -497,25 +498,56 @@ func c15classJSON(eng *q.Engine, texts []string) (s string) {
 	return "value " + c15jsonOf(res)
 }
 
-// c15reuseEngine (mode "r", documents a, b): one compiled query evaluated on a, then twice on b,
-// against a freshly compiled one on b.
-func c15reuseEngine(query string, texts []string) string {
+// c15engineMarks reads the number of names left in the engine's recursion-guard set
+// (`evaluating`, unexported) by reflection; -1 when the engine has no such field.
+func c15engineMarks(eng *q.Engine) (n int) {
+	defer func() {
+		if recover() != nil {
+			n = -1
+		}
+	}()
+	f := reflect.ValueOf(eng).Elem().FieldByName("evaluating")
+	if !f.IsValid() || f.Kind() != reflect.Map {
+		return -1
+	}
+	return f.Len()
+}
+
+// c15reuseEngine (mode "r", documents d0 … dk): one compiled query evaluated on d0, d1, … d(k-1)
+// in turn and then twice on dk; every evaluation must give what a freshly compiled query gives on
+// that document (so an evaluation that fails — because of the document, of a variable referenced
+// before its definition, of an ill-typed item — must leave nothing behind in the engine), and
+// after every evaluation, whatever its outcome, the recursion-guard set must be empty and the
+// statement list must be the parsed one. The second result is the history of outcome classes.
+func c15reuseEngine(query string, texts []string) (string, string) {
 	eng, err := q.NewParser().ParseString(query)
 	if err != nil || len(texts) < 2 {
-		return "same"
+		return "same", ""
 	}
-	first := c15classJSON(eng, texts[:1])
-	second := c15classJSON(eng, texts[1:2])
-	third := c15classJSON(eng, texts[1:2])
-	fresh, _ := q.NewParser().ParseString(query)
-	want := c15classJSON(fresh, texts[1:2])
-	if second != want {
-		return "after evaluating on another document (" + strings.SplitN(first, " ", 2)[0] + "): " + second + " / fresh: " + want
+	nStatements := len(eng.Statements)
+	var hist []string
+	steps := make([]int, 0, len(texts)+1)
+	for i := range texts {
+		steps = append(steps, i)
 	}
-	if third != want {
-		return "third evaluation: " + third + " / fresh: " + want
+	steps = append(steps, len(texts)-1)
+	for k, i := range steps {
+		got := c15classJSON(eng, texts[i:i+1])
+		hist = append(hist, strings.SplitN(got, " ", 2)[0])
+		fresh, _ := q.NewParser().ParseString(query)
+		want := c15classJSON(fresh, texts[i:i+1])
+		h := strings.Join(hist, ",")
+		if got != want {
+			return fmt.Sprintf("evaluation %d of one compiled query (outcomes so far: %s), on document %d: %s / fresh: %s", k+1, h, i+1, got, want), h
+		}
+		if m := c15engineMarks(eng); m > 0 {
+			return fmt.Sprintf("after evaluation %d (outcomes so far: %s) %d variable(s) are still marked as being evaluated in the engine", k+1, h, m), h
+		}
+		if len(eng.Statements) != nStatements {
+			return fmt.Sprintf("after evaluation %d (outcomes so far: %s) the engine has %d statements, parsed: %d", k+1, h, len(eng.Statements), nStatements), h
+		}
 	}
-	return "same"
+	return "same", strings.Join(hist, ",")
 }
 
 // c15reuseFormatters (mode "f", query = q1 \x01 q2): each formatter writes the result of q1 and
@@ -576,9 +608,9 @@ func c15evalOne(query string, texts []string, mode string) (o c15Obs) {
 		return
 	}
 	if mode == "r" {
-		o.Reuse = c15reuseEngine(query, texts)
+		o.Reuse, o.Hist = c15reuseEngine(query, texts)
 		if len(texts) > 1 {
-			texts = texts[1:]
+			texts = texts[len(texts)-1:]
 		}
 		mode = "j"
 	}
@@ -951,10 +983,10 @@ func c15req(pool []*c15Doc, j c15Job) string {
 	if j.Mode == "d" {
 		j.Mode = "c"
 	}
-	if j.Mode == "r" { // the model sees what a fresh engine sees: the second document only
+	if j.Mode == "r" { // the model sees what a fresh engine sees: the last document of the history only
 		j.Mode = "j"
 		if len(j.Docs) > 1 {
-			j.Docs = j.Docs[1:]
+			j.Docs = j.Docs[len(j.Docs)-1:]
 		}
 	}
 	return "qeval " + j.Mode + " " + c15year + " " + hexs(j.Query) + " " + c15docsWire(pool, j.Docs)
